@@ -74,9 +74,21 @@ func build(f *family, t ad.ScalarType, p []float64) (d st.ScalarPdf, err error, 
 
 func isInf(v float64) bool { return math.IsInf(v, 0) }
 
+const minNormal = 1e-280 // smallest magnitude of an evaluation point (products with parameters stay normal)
+
+func noSubnormal(v float64) float64 {
+	if v != 0 && math.Abs(v) < minNormal {
+		return math.Copysign(minNormal, v)
+	}
+	return v
+}
+
 func contPoints(r *prng.Rand, lo, hi, c, s float64, n int) []float64 {
 	var xs []float64
 	add := func(v float64) {
+		if v != 0 && math.Abs(v) < minNormal { // no subnormal evaluation points
+			v = math.Copysign(minNormal, v)
+		}
 		if !math.IsNaN(v) && !isInf(v) {
 			xs = append(xs, v)
 		}
@@ -504,6 +516,9 @@ func cdfGrid(f *family, r *prng.Rand, p []float64) []float64 {
 		xs = append(xs, math.Nextafter(hi, -inf), hi, math.Nextafter(hi, inf), hi+s*1e-6, hi+s, hi+s*1e3)
 	} else {
 		xs = append(xs, c+100*s, c+1e3*s, c+1e6*s)
+	}
+	for i := range xs {
+		xs[i] = noSubnormal(xs[i])
 	}
 	sortFloats(xs)
 	return xs
